@@ -43,7 +43,7 @@ ASSUMPTIONS = ['Manifest texts are valid UTF-8 and valid compressed streams (the
 DAMAGE = ['dup-line', 'drop-line', 'dup-ignore', 'unknown-tag', 'unknown-hash', 'whirlpool', 'bad-size', 'neg-size',
           'huge-size', 'esc-overflow', 'esc-above-unicode', 'esc-surrogate', 'esc-nul', 'esc-bad', 'empty-path',
           'abs-path', 'dotdot-path', 'names-dir', 'beneath-file', 'crlf', 'tabs', 'trailing-space', 'bad-timestamp',
-          'short-line', 'odd-checksum-count', 'ignore-top', 'ignore-dot', 'aux-no-files', 'aux-abs', 'dup-timestamp', 'dup-timestamp', 'dist-slash',
+          'short-line', 'odd-checksum-count', 'ignore-top', 'ignore-dot', 'aux-no-files', 'aux-abs', 'dup-timestamp', 'dup-timestamp', 'ignore-hidden-dir', 'ignore-hidden-dir', 'dist-slash',
           'manifest-self', 'manifest-cycle', 'manifest-cycle-3', 'manifest-back-ref', 'manifest-missing', 'dup-manifest-entry', 'blank-lines', 'long-line', 'unicode-space',
           'size-superscript', 'size-circled', 'size-arabic-indic', 'size-fullwidth', 'size-plus', 'size-underscore',
           'size-float', 'size-hex', 'hash-value-odd', 'tag-lowercase', 'tag-unicode', 'path-only-escape', 'esc-abs-path', 'esc-abs-path']
@@ -267,6 +267,18 @@ def apply_damage(w, sc, d):
         lines.append('AUX ' + (sl[1] if len(sl) > 1 else 'x') + ' 1')
     elif k == 'aux-abs':
         lines.append(('AUX /abs-aux 1', 'AUX \\x2F 1', 'AUX / 1', 'AUX //x 1')[d['idx'] % 4])
+    elif k == 'ignore-hidden-dir':
+        # redundant but legal: an IGNORE entry naming a dot-directory that exists
+        nm = ('.cache', '.git', '.hidden/deeper')[d['idx'] % 3]
+        try:
+            os.makedirs(os.path.join(w.root, mdir, nm), exist_ok=True)
+            with _o['open'](os.path.join(w.root, mdir, nm, 'inside'), 'w') as f:
+                f.write('x')
+        except OSError:
+            return False
+        lines.append('IGNORE ' + nm.split('/')[0])
+        if d['idx'] % 2:
+            lines.append('IGNORE ' + nm.split('/')[0])
     elif k == 'dup-timestamp':
         # several TIMESTAMP lines are legal; only the first one found is refreshed by an update
         lines.insert(0, 'TIMESTAMP 2019-01-01T00:00:00Z')
